@@ -31,21 +31,32 @@ def case_term(row):
 
     flags = gpair(gbool(scn["recovery"]), gbool(scn["dir"] == "s2c"), gbool(CODE_STRIPS),
                   gbool(row.get("ws_att_in_flight", False)))
-    nrows = [gpair(gN(i), gbool(row["trailing"][i]), gbool(True)) for i in scn["names"]]
-    if row.get("twice", -1) in scn["names"]:
-        t = row["twice"]
-        nrows.append(gpair(gN(100 + t), gbool(row["trailing"][t]), gbool(True)))
+    nrows = []
+    for i in scn["names"]:
+        for r in regs_of(row, i):
+            if r != 2:
+                # alternative parameter types never end in a string kind (they are `any`)
+                nrows.append(gpair(gN(i + 100 * r), gbool(row["trailing"][i] and r == 0), gbool(True)))
     names = glist(nrows)
     ems = []
+    oregs = set()
     for e in row["emitted"]:
-        ems.append(gpair(gpair(conn_n(e["c"]), name_n(e["n"]), gd(e["d"])), gbool(e["ok"])))
-        if e["n"] == row.get("twice", -1):   # second registration of the same name: one more expected hand-over
-            ems.append(gpair(gpair(conn_n(e["c"]), gN(100 + e["n"]), gd(e["d"])), gbool(e["ok"])))
+        for r in regs_of(row, e["n"]):
+            if r == 2:       # Once registration: handled by once_ok
+                oregs.add((e["c"], e["n"]))
+            else:            # every On registration (primary / alternative parameter types) must be handed the event
+                ems.append(gpair(gpair(conn_n(e["c"]), gN(e["n"] + 100 * r), gd(e["d"])), gbool(e["ok"])))
+    for n in row["scn"]["names"]:
+        if 2 in regs_of(row, n):
+            for c in range(row["scn"]["clients"]):
+                oregs.add((c, n))
     em = glist(ems)
-    de = glist(gpair(conn_n(d["c"]), name_n(d["n"]), gd(d["d"])) for d in row["delivered"])
+    de = glist(gpair(conn_n(d["c"]), name_n(d["n"]), gd(d["d"])) for d in row["delivered"] if not 200 <= d["n"] < 300)
+    ode = glist(gpair(conn_n(d["c"]), gN(d["n"] - 200), gd(d["d"])) for d in row["delivered"] if 200 <= d["n"] < 300)
+    once = gpair(glist(gpair(conn_n(c), gN(n)) for c, n in sorted(oregs)), ode)
     probe = gpair(gN(row.get("probe_set", 0)), gN(row.get("probe_zero", 0)))
     # the type annotation makes elaboration of the long literal ~3x faster
-    return "(%s : ccase)" % gpair(flags, names, em, de, probe)
+    return "(%s : ccase)" % gpair(flags, names, em, de, probe, once)
 
 
 def size_bucket(e):
@@ -56,13 +67,30 @@ def size_bucket(e):
             return name
 
 
+def regs_of(row, n):
+    return row.get("regs", {}).get(str(n), [0])
+
+
 def expected_delivered(row):
+    """(expected, delivered) multisets of (connection, registration-tagged name index, digest); a Once
+    registration (200+) expects exactly one of the events of its (connection, name): for the diagnosis
+    the delivered Once entries that are legitimate are taken as expected."""
     E = Counter()
+    once_need = {}
     for e in row["emitted"]:
-        E[(e["c"], e["n"], e["d"])] += 1
-        if e["n"] == row.get("twice", -1):
-            E[(e["c"], 100 + e["n"], e["d"])] += 1
+        for r in regs_of(row, e["n"]):
+            if r == 2:
+                once_need.setdefault((e["c"], e["n"]), set()).add(e["d"])
+            else:
+                E[(e["c"], e["n"] + 100 * r, e["d"])] += 1
     D = Counter((d["c"], d["n"], d["d"]) for d in row["delivered"])
+    for (c, n), ds in once_need.items():
+        got = [k for k in D if k[0] == c and k[1] == n + 200]
+        ok = [k for k in got if k[2] in ds]
+        if len(got) == 1 and len(ok) == 1 and D[ok[0]] == 1:
+            E[ok[0]] += 1
+        else:
+            E[(c, n + 200, "one-of-%d" % len(ds))] += 1
     return E, D
 
 
@@ -75,7 +103,9 @@ def describe(row, limit=6):
         if 0 <= i < len(names):
             return names[i]["name"]
         if 0 <= i - 100 < len(names):
-            return names[i - 100]["name"] + " (2nd registration)"
+            return names[i - 100]["name"] + " (handler with other parameter types)"
+        if 0 <= i - 200 < len(names):
+            return names[i - 200]["name"] + " (Once handler)"
         return "decoy/foreign"
     lost = Counter(nm(k[1]) for k in (E - D).elements())
     extra = Counter(nm(k[1]) for k in (D - E).elements())
@@ -84,7 +114,9 @@ def describe(row, limit=6):
 
 def run(ctx):
     ctx.rule = ("live sio<->sio scenarios: transports {polling, websocket, polling->websocket upgrade (settled and mid-upgrade)} "
-                "x recovery {off,on} x direction {s2c,c2s} x 1..3 clients x 1..8 concurrent emitters; 16 event names "
+                "x recovery {off,on} x direction {s2c,c2s} x 1..3 clients x 1..8 concurrent emitters; per name 1..3 handler "
+                "registrations (On with the primary parameter types, On with OTHER parameter types - jsonparser.Binary / any / "
+                "map / other structs -, Once), each registration's received arguments digest-compared; 17 event names "
                 "(unicode, quotes, backslashes, trailing backslash, empty, a wire-lookalike) with typed handler signatures "
                 "(numbers, strings, structs, maps, nested sio.Binary leaves, 0..4+ attachments), frame sizes "
                 "{tiny, ~1 KiB, 32 KiB+-1, 64 KiB+-1, 100-300 KiB (thorough: up to 900 KB)}; one evaluation = one emitted "
